@@ -14,6 +14,9 @@ Qed.
 Lemma bytes_neq_eqb a b : a <> b -> bytes_eqb a b = false.
 Proof. intros H. destruct (bytes_eqb a b) eqn:E; [|reflexivity]. apply bytes_eqb_eq in E. contradiction. Qed.
 
+(* a point the store cannot represent: a value that is not a number or a time outside the int64 ns range *)
+Definition unstorable (p : point) : bool := f64_is_nan (p_val p) || bad_time p.
+
 (* the good state of one side, and the placement written *)
 Record side_ok (st : store) (par id : bytes) : Prop := {
   so_wf : wf st; so_inv : Inv st; so_edges : edges_ok st;
@@ -22,14 +25,14 @@ Record side_ok (st : store) (par id : bytes) : Prop := {
 
 Lemma wr_edge_single st id par p :
   side_ok st par id -> par <> [] -> id <> str_none -> id <> par ->
-  f64_is_nan (p_val p) = false -> key_ok p -> not_nt p = true ->
+  unstorable p = false -> key_ok p -> not_nt p = true ->
   let st' := wr st (EdgePts id par [p]) in
   edge_rows st' par id = ins (edge_rows st par id) p /\
   (forall up down, (up, down) <> (par, id) -> edge_rows st' up down = edge_rows st up down) /\
   s_nodes st' = s_nodes st /\
   side_ok st' par id.
 Proof.
-  intros [W HI HO (e & Hf) Hr] Hpar Hnone Hneq Hnan Hk Hnt. cbv zeta. unfold wr. cbn [handle].
+  intros [W HI HO (e & Hf) Hr] Hpar Hnone Hneq Hnan Hk Hnt. apply orb_false_iff in Hnan as [Hnan Hbt]. cbv zeta. unfold wr. cbn [handle].
   destruct (edge_points st id par [p]) as [st'|err] eqn:E.
   - cbn [fst].
     destruct (edge_points_edge_rows st id par [p] st' W HO Hpar E) as (Hsame & Hother & HO').
@@ -45,18 +48,18 @@ Proof.
         destruct (edge_points_rows_existing st id par [p] st' e Hpar Hke Hf E) as (e' & Hin & _ & Hu' & Hd' & _).
         apply (find_edge_in _ par id e' Hin Hu' Hd').
       * (* the root does not move when the edge exists *)
-        revert E. unfold edge_points. cbn [has_nan existsb]. rewrite Hnan. cbn [orb].
+        revert E. unfold edge_points. cbn [has_nan bad_times existsb]. rewrite Hnan, Hbt. cbn [orb].
         rewrite (bytes_neq_eqb id par Hneq), (bytes_neq_eqb id (s_root st) Hr). cbn [andb].
         assert (match par with [] => str_root | _ :: _ => par end = par) as -> by (destruct par; [contradiction|reflexivity]).
         rewrite Hf. destruct (merge_batch true (e_pts e) (collapse [p])). intros E. inversion E. cbn [s_root]. exact Hr.
-  - exfalso. revert E. unfold edge_points. cbn [has_nan existsb]. rewrite Hnan. cbn [orb].
+  - exfalso. revert E. unfold edge_points. cbn [has_nan bad_times existsb]. rewrite Hnan, Hbt. cbn [orb].
     rewrite (bytes_neq_eqb id par Hneq), (bytes_neq_eqb id (s_root st) Hr). cbn [andb].
     assert (match par with [] => str_root | _ :: _ => par end = par) as -> by (destruct par; [contradiction|reflexivity]).
     rewrite Hf. destruct (merge_batch true (e_pts e) (collapse [p])). discriminate.
 Qed.
 
 Definition send_ok (s : bool * point) : Prop :=
-  f64_is_nan (p_val (snd s)) = false /\ key_ok (snd s) /\ not_nt (snd s) = true.
+  unstorable (snd s) = false /\ key_ok (snd s) /\ not_nt (snd s) = true.
 
 Lemma apply_edge_sends_rows sends : forall D U id pl pu,
   side_ok D pl id -> side_ok U pu id -> pl <> [] -> pu <> [] -> id <> str_none -> id <> pl -> id <> pu ->
@@ -98,7 +101,7 @@ Proof.
 Qed.
 
 Definition rows_sendable (rows : list point) : Prop :=
-  Forall (fun p => f64_is_nan (p_val p) = false /\ not_nt p = true) rows.
+  Forall (fun p => unstorable p = false /\ not_nt p = true) rows.
 
 (* C02, one placement of the shared tree: after the edge-point exchange of a catch-up pass both instances
    hold, for every identity of that edge, the newer of the two points they held; no other edge and no
